@@ -614,6 +614,109 @@ def lower_tie(ctx):
     return len(cases)
 
 
+def frame_shape(ir):
+    """sites of _rewrite_return_sequences in a runtime IR tree and the ones outside the frame shape under which the
+    rewritten code is proved to behave as intended (PropsLower.v return_sequence_*): only the label parameters on the stack"""
+    sites, bad = {}, []
+
+    def note(kind, ok, n):
+        sites[kind] = sites.get(kind, 0) + 1
+        if not ok:
+            bad.append((kind, str(n)[:300]))
+
+    def walk(n, params, path, prev):
+        v = n.value
+        if v == "label":
+            ps = [t.value for t in n.args[1].args]
+            for a in n.args[2:]:
+                walk(a, ps, [], None)
+            return
+        ops = [p for p in path]
+        if v == "return" and len(n.args) >= 2 and n.args[0].value == "ret_ofst" and n.args[1].value == "ret_len":
+            note("return", params == ["ret_ofst", "ret_len"] and all(o == "seq" for o in ops), n)
+        if v == "exit_to":
+            in_frame = all(o in ("seq", "if", "repeat") for o in ops) and ("repeat" not in ops or prev == "cleanup_repeat")
+            if n.args[0].value == "return_pc":
+                note("exit_return", params == ["return_pc"] and all(o == "seq" for o in ops) and len(n.args) == 1, n)
+            elif any(t.value == "return_pc" for t in n.args[1:]):
+                note("exit_internal", params in (["return_buffer", "return_pc"], ["return_pc"]) and len(n.args) == 2
+                     and in_frame, n)
+            else:
+                note("exit_external", params is not None and "return_buffer" not in params, n)
+        for i, a in enumerate(n.args):
+            walk(a, params, path + [v], n.args[i - 1].value if (v == "seq" and i > 0) else None)
+
+    walk(ir, None, [], None)
+    return sites, bad
+
+
+def real_lower_tie(ctx):
+    """exact output equality on whole compiled contracts (legacy pipeline, optimize none / gas / codesize): the runtime IR
+    through compile_ir.compile_to_assembly(ir, NONE) (= _rewrite_return_sequences + lowering, no assembly optimiser)
+    vs the Coq model RetRewrite.compile_to_assembly; plus the frame-shape check of every rewritten site."""
+    import pathlib
+    from vlib import c15_tree
+    from vlib.c02_corpus import CORPUS
+    from vlib.c15_corpus import OWN
+    from vyper.compiler.input_bundle import FileInput
+    from vyper.compiler.phases import CompilerData
+    from vyper.compiler.settings import OptimizationLevel, Settings, anchor_settings
+    from vyper.ir import compile_ir
+    rnd = ctx.rng("reallower")
+    contracts = OWN + list(CORPUS)
+    if ctx.tier != "thorough":
+        contracts = rnd.sample(OWN, 2) + rnd.sample(list(CORPUS), 3)
+
+    def clean(x):      # label names are source text: keep them printable inside a Coq string, same on both sides
+        return x.replace('"', "'").replace("\n", " ").replace("\\", "/")
+
+    cases, sites_all, skipped = [], {}, 0
+    for c in contracts:
+        for lvl in (OptimizationLevel.NONE, OptimizationLevel.GAS, OptimizationLevel.CODESIZE):
+            st = Settings(optimize=lvl, evm_version="cancun", experimental_codegen=False)
+            try:
+                with anchor_settings(st):
+                    fi = FileInput(0, pathlib.Path(c["name"] + ".vy"), pathlib.Path(c["name"] + ".vy"), c["src"])
+                    ir = CompilerData(fi, settings=st).ir_runtime
+                    asm = compile_ir.compile_to_assembly(ir, OptimizationLevel.NONE)
+                    r = [clean(c15_asm.show_item(x)) for x in c15_asm.from_real(list(asm))]
+                    coq = c15_tree.coq_of_node_real(ir, clean)
+            except Exception as e:  # noqa: contract needs other settings (decimals) -> not this tie's concern
+                skipped += 1
+                ctx.log(f"real_lower: {c['name']} {lvl} skipped: {type(e).__name__}")
+                continue
+            sites, bad = frame_shape(ir)
+            for k, v in sites.items():
+                sites_all[k] = sites_all.get(k, 0) + v
+            if bad:
+                ctx.violation("correspondence-broken", "the front end emits a return / exit_to site outside the frame shape "
+                              "assumed by the return-sequence theorems (only label parameters on the stack)",
+                              {"contract": c["name"], "optimize": str(lvl), "site": bad[0][0], "node": bad[0][1]})
+            cases.append((c["name"], str(lvl), coq, r))
+    imports = ("From Verif Require Import Base.PyInt C15.Syntax C15.GenUtils C15.Peephole C15.Lower C15.RetRewrite.\n"
+               "Open Scope string_scope.\n"
+               "Definition show_items (r : res (list item)) : list string := match r with Ok l => map show_item l "
+               "| Err TypeErr => [\"DECLINED\"] | Err Raised => [\"EXC\"] | Err OutOfFuel => [\"FUEL\"] | Err _ => [\"E\"] end.\n")
+    nsh = 3
+    outs = coqrun.eval_cases(imports, [f"show_items (compile_to_assembly 400 {c})" for (_n, _l, c, _r) in cases], "c15real",
+                             shard=max(1, (len(cases) + nsh - 1) // nsh), timeout=300 if ctx.tier != "thorough" else 1500)
+    for (n, lvl, _c, r), o in zip(cases, outs):
+        m = STRS.findall(o)
+        if m != r:
+            j = next((q for q in range(min(len(r), len(m))) if r[q] != m[q]), min(len(r), len(m)))
+            ctx.violation("correspondence-broken", "RetRewrite/Lower model != compile_ir.compile_to_assembly on a compiled "
+                          "contract (exact output)", {"contract": n, "optimize": lvl, "first_difference_at": j,
+                                                      "real": " ".join(r[max(0, j - 6):j + 8]),
+                                                      "model": " ".join(m[max(0, j - 6):j + 8])})
+            break
+    ctx.corr["real_lower_cases"] = len(cases)
+    ctx.corr["real_lower_skipped"] = skipped
+    ctx.corr["return_sequence_sites"] = sites_all
+    if not cases:
+        ctx.violation("correspondence-broken", "no contract could be compiled for the whole-contract lowering tie", {})
+    return len(cases)
+
+
 def glue_corpus(ctx):
     """legacy pipeline, optimize none vs gas vs codesize, same seeded ABI-derived call plan (boundary-biased arguments):
     status, returndata, logs, final storage must agree.  Catches optimiser mutants outside the modelled fragment."""
@@ -676,7 +779,8 @@ STATIC_FILES = ["C15/Syntax.v", "C15/WordFacts.v", "C15/Bytes.v", "C15/Peephole.
 # regenerated model first: any change in /repo's translated code re-checks every proof after it
 GEN_FILES = ["C15/GenUtils.v", "C15/Optimizer.v", "C15/OptTree.v", "C15/FoldSound.v", "C15/PropsFold.v", "C15/OptSound.v",
              "C15/OptTreeSound.v", "C15/MergeSound.v", "C15/MemInst.v", "C15/SymSound.v", "C15/PropsOpt.v",
-             "C15/Lower.v", "C15/LowerSound.v", "C15/LowerFlow.v", "C15/FlowSound.v", "C15/PropsLower.v"]
+             "C15/Lower.v", "C15/LowerSound.v", "C15/LowerFlow.v", "C15/FlowSound.v", "C15/RetRewrite.v",
+             "C15/RetRewriteSound.v", "C15/PropsLower.v"]
 
 
 def _build(ctx):
@@ -723,8 +827,10 @@ def run(ctx):
     T["semantics_tie"] = round(time.time() - t0, 1); t0 = time.time()
     nlow = lower_tie(ctx) if (gen_err is None and (COQ / "C15" / "Lower.vo").exists()) else 0
     T["lower_tie"] = round(time.time() - t0, 1); t0 = time.time()
+    nreal = real_lower_tie(ctx) if (gen_err is None and (COQ / "C15" / "RetRewrite.vo").exists()) else 0
+    T["real_lower"] = round(time.time() - t0, 1); t0 = time.time()
     # ---- tie
-    n = gcalls + nsem + nlow
+    n = gcalls + nsem + nlow + nreal
     if model_ok:
         n2, f = binop_grid_tie(ctx, differ)
         n += n2
